@@ -3,7 +3,7 @@
 P=$1; shift
 WT=/tmp/wt_mut
 [ -d $WT ] || git -C /repo worktree add -q --detach $WT HEAD
-git -C $WT checkout -q -- . && git -C $WT apply "$P" || { echo "patch failed"; exit 3; }
+git -C $WT checkout -q -- . && git -C $WT checkout -q --detach $(git -C /repo rev-parse HEAD) && git -C $WT apply "$P" || { echo "patch failed"; exit 3; }
 for c in "$@"; do
   VERIF_REPO_DIR=$WT /verif/check $c 2>&1 | cut -c1-200 | grep -E "VIOLATION|HARNESS|^\[" | head -${HEADN:-6}
 done
